@@ -106,6 +106,12 @@ pub fn run_par_case(case: &ParCase, cfg: &E2Config, run_seed: u64, decisions: Op
         if live == 0 {
             hit(&mut probes, "empty_world", 1);
         }
+        if cfg.pop.len() >= 15 {
+            hit(&mut probes, "crowded_world", 1);
+        }
+        if cfg.pop.iter().any(|(m, n)| *n >= 1024 && !cfg.emptied.contains(m)) {
+            hit(&mut probes, "table_of_more_than_1024_rows", 1);
+        }
         let mut wref = w.clone();
         let res_before = resource_vals(&w);
         let salt = mix(&[run_seed, 0x9A4]);
